@@ -16,9 +16,14 @@ RULE = ('seeded stratified generation: op x rounding mode x exponent-gap class x
 ASSUMPTIONS = ['exactq (Python int/Fraction arithmetic, twin round_to implementations) is correct',
                'operands are injected exactly through ctx.make_mpf (raw tuple), results read from ._mpf_']
 SHARD_TIMEOUT = {'quick': 300, 'thorough': 2400}
+LEVEL_TEXT = ('exploration: ~5*10^5 (quick) / ~10^7 (thorough) generated operations on the real code, every result compared '
+              'bit-for-bit with the correct rounding of the exact rational result; generators target ties, sticky bits, '
+              'far-apart and overlapping exponents, operand mantissas longer than the precision, all 5 rounding modes')
+LEVEL_NOTE = 'trusted base: vf/exactq.py (Python int arithmetic; round_to cross-checked against an independent naive form in setup); inputs not generated are not covered'
+TECHNIQUE = 'runtime reference-model monitor: exact rational oracle on every observed arithmetic result'
 
 N_QUICK, N_THOROUGH = 16, 16
-CASES = {'quick': 9000, 'thorough': 160000}
+CASES = {'quick': 30000, 'thorough': 700000}
 OPS = ['add', 'sub', 'mul', 'div', 'sqrt', 'neg', 'abs', 'ctor', 'fsum', 'fdot', 'special', 'exactkw', 'tie']
 
 
